@@ -148,6 +148,16 @@ CHECKS = {
              'UnknownObject), as is the InterfacesAdded/Removed signal of the step; random histories over 9 paths are validated by TLC.',
         design_ref='DESIGN.md section 3 (C16)',
         note='Trusts: TLC; two object classes stand for all interface/property combinations.'),
+    'C17': dict(
+        technique='TLA+ spec Props.tla (declaration table, Get/Set/GetAll/Assign history machine) model-checked by TLC; graph '
+                  'replayed through handleMethodCallMessage; recorded histories validated by TLC',
+        text='TLC explores all histories of local assignment and remote Get/Set/GetAll (right, empty and unknown interface; '
+             'right and unknown property) over six declarations: same name on two interfaces, declarations split between a base '
+             'class and a subclass, all access modes and notification modes, basic types incl. a double holding a Python int. '
+             'Every edge and random walks are replayed on a real exported object; the variant type is read from the raw reply '
+             'bytes, PropertiesChanged from sendMessage; random histories with more values are validated by TLC.',
+        design_ref='DESIGN.md section 3 (C17)',
+        note='Trusts: TLC; interface "" only with names declared once; one object shape.'),
 }
 
 NOT_YET = 'check not built yet (build in progress; see DESIGN.md section 6)'
